@@ -225,6 +225,21 @@ def mentions_seq(e):
     return False
 
 
+def hard_check(solver, timeout_ms):
+    """solver.check() with a wall-clock guard: z3's own `timeout` is a soft limit that some tactics do not poll
+    (observed: minutes on a 10 s budget); a watchdog interrupts the context, the result is then `unknown`"""
+    import threading
+    t = threading.Timer(timeout_ms / 1000.0 * 1.5 + 3.0, solver.ctx.interrupt)
+    t.daemon = True
+    t.start()
+    try:
+        return solver.check()
+    except z3.Z3Exception:
+        return z3.unknown
+    finally:
+        t.cancel()
+
+
 def check_valid(ctx, formula, timeout_ms, want_model_vars=None, uf_apps=None):
     """is `pc & facts => formula` valid?"""
     formula = L._b(formula) if not isinstance(formula, bool) else formula
@@ -244,7 +259,7 @@ def check_valid(ctx, formula, timeout_ms, want_model_vars=None, uf_apps=None):
             if not mentions_seq(f):
                 s0.add(f)
         s0.add(z3.Not(formula))
-        if s0.check() == z3.unsat:
+        if hard_check(s0, timeout_ms) == z3.unsat:
             return dict(verdict=PROVED, backend="z3", time=time.time() - t0)
     s = z3.Solver()
     s.set("timeout", timeout_ms)
@@ -258,12 +273,12 @@ def check_valid(ctx, formula, timeout_ms, want_model_vars=None, uf_apps=None):
     else:
         neg = z3.Not(formula)
     s.add(neg)
-    r = s.check()
+    r = hard_check(s, timeout_ms)
     if r == z3.unknown:
         # one retry with a different seed and twice the time before giving up (verdicts must not flip under load)
         s.set("random_seed", 41)
         s.set("timeout", 2 * timeout_ms)
-        r = s.check()
+        r = hard_check(s, 2 * timeout_ms)
     dt = time.time() - t0
     if r == z3.unsat:
         return dict(verdict=PROVED, backend="z3", time=dt)
@@ -279,7 +294,11 @@ def check_valid(ctx, formula, timeout_ms, want_model_vars=None, uf_apps=None):
                 pass
         res["stubs"] = stubs
         return res
-    return dict(verdict=UNDECIDED, backend="z3", time=dt, reason="solver: " + s.reason_unknown(),
+    try:
+        why = s.reason_unknown()
+    except z3.Z3Exception:
+        why = "interrupted"
+    return dict(verdict=UNDECIDED, backend="z3", time=dt, reason="solver: " + why,
                 smt2=s.to_smt2() if len(ctx.pc) < 400 else None)
 
 
